@@ -111,11 +111,18 @@ type Params map[string]string
 // requests.
 type Handler func(http.ResponseWriter, *http.Request, Params)
 
+// matchingString returns the string representation of the segment without the
+// optional mark, which is not part of what the segment matches, e.g. both
+// "/?settings" and "/settings" match "settings".
+func matchingString(s *Segment) string {
+	return strings.Replace(s.String(), "/?", "/", 1)
+}
+
 // addLeaf adds a new leaf from the given segment.
 func addLeaf(t Tree, r *Route, s *Segment, h Handler) (Leaf, error) {
 	leaves := t.getLeaves()
 	for _, l := range leaves {
-		if l.getSegment().String() == s.String() {
+		if matchingString(l.getSegment()) == matchingString(s) {
 			return nil, errors.Errorf("duplicated route %q", r.String())
 		}
 	}
